@@ -56,7 +56,12 @@ type Fact struct {
 	BArr  []bool
 	RO    []int64          // never written by generated rules: may be read with computed index
 	ROM   map[string]int64 // never written by generated rules: may be read with a computed key
-	Subs  []*Sub
+	// booleans behind a pointer / inside an interface value, with constant content (never written by rules)
+	PTrue  *bool
+	PFalse *bool
+	ATrue  interface{}
+	AFalse interface{}
+	Subs   []*Sub
 
 	M    map[string]int64
 	MF   map[string]float64
@@ -114,8 +119,17 @@ func (f *Fact) SetProbe(p *Probe) {
 	f.adopt()
 }
 
+// SetWrapped (re)creates the wrapped booleans (they are constants: not part of the serialised state).
+func (f *Fact) SetWrapped() {
+	t, fl := true, false
+	f.PTrue, f.PFalse, f.ATrue, f.AFalse = &t, &fl, true, false
+}
+
 // adopt makes the probe methods of the reachable Sub objects count on this fact's probe.
 func (f *Fact) adopt() {
+	if f.PTrue == nil {
+		f.SetWrapped()
+	}
 	if f.Sub != nil {
 		f.Sub.owner = f
 	}
